@@ -122,9 +122,10 @@ fn root_strategy() -> BoxedStrategy<RootCase> {
         proptest::bool::weighted(0.2),
         proptest::bool::weighted(0.2),
         prop_oneof![3 => Just(None), 1 => (0u16..=12).prop_map(Some)],
-        any::<u64>(),
+        (any::<u64>(), proptest::bool::weighted(0.2)),
     )
-        .prop_map(|(version, blocks, n_files, spread_pct, fdid_style, explicit_hash, normalized_paths, named_first, seed)| RootCase {
+        .prop_map(|(version, blocks, n_files, spread_pct, fdid_style, explicit_hash, normalized_paths, named_first, (seed, unnamed_flag_clear))| RootCase {
+            unnamed_flag_clear,
             version,
             blocks,
             n_files,
@@ -186,7 +187,7 @@ fn res_strategy() -> BoxedStrategy<ResCase> {
         any::<u64>(),
     )
         .prop_map(|((version, blocks, n_files, spread_pct, fdid_style, explicit_hash, normalized_paths, rseed), in_encoding_pct, extra_ckeys, page_kb, seed)| {
-            let mut root = RootCase { version, blocks, n_files, spread_pct, fdid_style, explicit_hash, normalized_paths, named_first: None, seed: rseed };
+            let mut root = RootCase { version, blocks, n_files, spread_pct, fdid_style, explicit_hash, normalized_paths, named_first: None, unnamed_flag_clear: false, seed: rseed };
             // construct around the V2 header band (it is decided by the root sections)
             if root::in_v2_band(&root::build(&root).1) {
                 root.version = 3;
@@ -309,6 +310,41 @@ fn main() {
         )
         .shards(16),
     );
+    ck.run(
+        Section::enumerate(
+            "archive-index-duplicate-keys",
+            "key size {1,2,9,16} x offset width {4,5,6} x distinct keys {cap-1, cap+1, 2cap+3}: a run of 4 equal keys placed across the first chunk boundary plus two more runs; find_all_entries / find_all_key_matches / find_entry against the linear scan",
+            move || {
+                let mut v = Vec::new();
+                for k in [1u8, 2, 9, 16] {
+                    for w in [4u8, 5, 6] {
+                        let cap = idx::records_per_chunk(k, w);
+                        for (i, n) in [cap - 1, cap + 1, 2 * cap + 3].into_iter().enumerate() {
+                            let s = splitmix64(seed ^ 0xd0b ^ (k as u64) << 32 ^ (w as u64) << 24 ^ i as u64);
+                            v.push(idx::DupCase { key_size: k, offset_bytes: w, n, runs: vec![(s as u16, 3), ((s >> 16) as u16, 1)], straddle: true, seed: s });
+                        }
+                    }
+                }
+                Box::new(v.into_iter())
+            },
+            idx::check_dups,
+        )
+        .shards(16),
+    );
+    ck.run(
+        Section::pbt(
+            "archive-index-duplicate-keys-random",
+            q(600, 60_000),
+            || {
+                (proptest::sample::select(vec![1u8, 2, 3, 8, 9, 16]), proptest::sample::select(vec![4u8, 5, 6]), 1usize..700, proptest::collection::vec((any::<u16>(), 0u8..5), 0..6), any::<bool>(), any::<u64>())
+                    .prop_map(|(key_size, offset_bytes, n, runs, straddle, seed)| idx::DupCase { key_size, offset_bytes, n, runs, straddle, seed })
+                    .boxed()
+            },
+            idx::check_dups,
+        )
+        .shards(16)
+        .shrink_iters(300),
+    );
     ck.run(Section::pbt("archive-index-random", q(2_500, 250_000), move || idx_strategy(maxp), idx::check).shards(16).shrink_iters(300));
     ck.run(Section::pbt("archive-index-16-4-4-chunked", q(500, 50_000), move || idx1644_strategy(maxp), idx::check).shards(16).shrink_iters(300));
 
@@ -362,12 +398,28 @@ fn main() {
                                 explicit_hash: false,
                                 normalized_paths: s & 16 != 0,
                                 named_first: Some(named as u16),
+                                unnamed_flag_clear: false,
                                 seed: s,
                             });
+                            // no name anywhere, two blocks of unnamed records whose flags do not say so
+                            if named == 0 && total >= 2 && version >= 2 {
+                                v.push(RootCase {
+                                    version,
+                                    blocks: vec![BlockSpec { locale: 0x2, content: 0x4, named: false }, BlockSpec { locale: 0x22, content: 0x8, named: false }],
+                                    n_files: total,
+                                    spread_pct: 50,
+                                    fdid_style: (s % 3) as u8,
+                                    explicit_hash: false,
+                                    normalized_paths: false,
+                                    named_first: None,
+                                    unnamed_flag_clear: true,
+                                    seed: s,
+                                });
+                            }
                         }
                     }
                 }
-                v.dedup_by(|a, b| a.version == b.version && a.n_files == b.n_files && a.named_first == b.named_first);
+                v.dedup_by(|a, b| a.version == b.version && a.n_files == b.n_files && a.named_first == b.named_first && a.unnamed_flag_clear == b.unnamed_flag_clear);
                 Box::new(v.into_iter())
             },
             root::check,
